@@ -143,3 +143,18 @@ func Verif_C46_ClearsignCtx() {
 	text := append(append([]byte(p), mid...), q...)
 	c46ClearsignRoundTrip(text, len(p)+1)
 }
+
+// Verif_C46_ClearsignMarker: plaintext lines that look like armor framing: the text of the
+// signature armor header ("-----BEGIN PGP SIGNATURE-----", which Encode must dash-escape and
+// Decode must not take for the terminator), the clearsign header line, and an already
+// dash-escaped marker; at the start of the text, after a line, after an empty line; followed by
+// 2 arbitrary bytes (rest of the line, trailing whitespace, line end, next line) and an
+// optional further line. Same round-trip obligations as Verif_C46_Clearsign.
+func Verif_C46_ClearsignMarker() {
+	marker := [3]string{"-----BEGIN PGP SIGNATURE-----", "-----BEGIN PGP SIGNED MESSAGE-----", "- -----BEGIN PGP SIGNATURE-----"}[verifrt.Choose(0, 2)]
+	pre := [3]string{"", "a\n", "\n"}[verifrt.Choose(0, 2)]
+	post := [2]string{"", "\nb"}[verifrt.Choose(0, 1)]
+	mid := c46Text(2)
+	text := append(append(append([]byte(pre), marker...), mid...), post...)
+	c46ClearsignRoundTrip(text, len(pre)+5)
+}
